@@ -137,7 +137,7 @@ FailsIffUnknown == /\ pc = "failed" => Unknown(reg, script)
                    /\ pc = "done" => ~Unknown(reg, script)
 PlainUntouched  == pc = "done" /\ ~HasConst(script) => cur = script /\ expansions = 0
 Terminates      == <>(pc \in {"done", "failed"})
-\* a reference was expanded inside a registered body (nested) iff more expansions happened than the script has references
+\* Leg B export: one line per input (the replay calls a case nested when more expansions happened than the expression has references)
 RECURSIVE SetToSeq(_)
 SetToSeq(S) == IF S = {} THEN <<>> ELSE LET x == CHOOSE y \in S : TRUE IN <<x>> \o SetToSeq(S \ {x})
 EmitDone == pc \in {"done", "failed"} =>
